@@ -62,6 +62,59 @@ func verifSortedKeys(m map[string]any) []string {
 	return keys
 }
 
+// verifFlipBools: the tree with every boolean negated (all depths).
+func verifFlipBools(t any) any {
+	switch x := t.(type) {
+	case bool:
+		return !x
+	case []any:
+		out := make([]any, len(x))
+		for i := range x {
+			out[i] = verifFlipBools(x[i])
+		}
+		return out
+	case map[string]any:
+		out := map[string]any{}
+		for k, v := range x {
+			if k == "example" || k == "default" || k == "value" || k == "enum" {
+				out[k] = v // free-form data stays as it is
+				continue
+			}
+			out[k] = verifFlipBools(v)
+		}
+		return out
+	}
+	return t
+}
+
+// verifDropDefaultFalse: a member whose value is false says the same as its absence for every
+// boolean of the specification except "explode" (default depends on style) and
+// "additionalProperties" (false forbids); free-form data is left alone.
+func verifDropDefaultFalse(t any) any {
+	switch x := t.(type) {
+	case []any:
+		out := make([]any, len(x))
+		for i := range x {
+			out[i] = verifDropDefaultFalse(x[i])
+		}
+		return out
+	case map[string]any:
+		out := map[string]any{}
+		for k, v := range x {
+			if k == "example" || k == "default" || k == "value" || k == "enum" {
+				out[k] = v
+				continue
+			}
+			if b, isBool := v.(bool); isBool && !b && k != "explode" && k != "additionalProperties" {
+				continue
+			}
+			out[k] = verifDropDefaultFalse(v)
+		}
+		return out
+	}
+	return t
+}
+
 func verifC03(samples []verifKindSample) {
 	smp := samples[verifChoose("kind", len(samples))]
 	tree, ok := verifJSONTree([]byte(smp.text))
@@ -77,9 +130,14 @@ func verifC03(samples []verifKindSample) {
 	for _, k := range smp.keep {
 		required[k] = true
 	}
-	v := verifChoose("variant", 2*len(keys)+1)
+	v := verifChoose("variant", 2*len(keys)+2)
 	in := map[string]any{}
+	flipped := false
 	switch {
+	case v == 2*len(keys)+1:
+		// every boolean of the specification's own members negated (explode:false, additionalProperties:true, ...)
+		in = verifFlipBools(obj).(map[string]any)
+		flipped = true
 	case v == 0:
 		in = obj
 	case v <= len(keys):
@@ -111,7 +169,11 @@ func verifC03(samples []verifKindSample) {
 		return
 	}
 	got, ok := verifJSONTree(out)
-	verifAssert(ok && reflect.DeepEqual(got, any(in)), "C03 "+smp.name+": the serialised JSON equals the normal-form input (nothing lost, nothing invented)")
+	if flipped {
+		verifAssert(ok && reflect.DeepEqual(verifDropDefaultFalse(got), verifDropDefaultFalse(any(in))), "C03 "+smp.name+": with every boolean negated the serialised JSON equals the input up to members that are false by default")
+	} else {
+		verifAssert(ok && reflect.DeepEqual(got, any(in)), "C03 "+smp.name+": the serialised JSON equals the normal-form input (nothing lost, nothing invented)")
+	}
 	// parsing the output and serialising again gives the same JSON
 	y := smp.mk()
 	if json.Unmarshal(out, y) == nil {
@@ -124,5 +186,5 @@ func verifC03(samples []verifKindSample) {
 	verifReach("end")
 }
 
-//verif:harness id=C03 tier=quick,thorough witness=end bounds="19 OpenAPI 3 object kinds (Schema x2, Parameter, Header, MediaType+Encoding, RequestBody, Response, Operation, PathItem, Components, SecurityScheme+OAuthFlows, Server+Variable, Info+Contact+License, Tag+ExternalDocs, Link, Example, Discriminator, XML, whole document) in normal form with every specified field and an x- extension; variants: all members, each member dropped, each member alone; JSON reader/writer only (YAML and byte-level syntax are not applicable)"
+//verif:harness id=C03 tier=quick,thorough witness=end bounds="19 OpenAPI 3 object kinds (Schema x2, Parameter, Header, MediaType+Encoding, RequestBody, Response, Operation, PathItem, Components, SecurityScheme+OAuthFlows, Server+Variable, Info+Contact+License, Tag+ExternalDocs, Link, Example, Discriminator, XML, whole document) in normal form with every specified field and an x- extension; variants: all members, each member dropped, each member alone, every boolean negated; JSON reader/writer only (YAML and byte-level syntax are not applicable)"
 func verifH_C03_openapi3() { verifC03(verifSamples) }
